@@ -16,6 +16,7 @@ CLANG = "clang-14"
 DROP_CASTS = ("LValueToRValue", "NoOp", "ArrayToPointerDecay", "FunctionToPointerDecay")
 NORMALISE_DECL_INIT = True
 NORMALISE_COMPOUND = True
+NORMALISE_COMPARE = True
 
 
 # --------------------------------------------------------------------------------------------------
@@ -613,7 +614,19 @@ class _Conv(object):
                 return E("asg", op="=", a=[le, re_], ty=_qt(n), line=line, off=off)
             if op == ",":
                 return E("bin", op=",", a=[self.expr(l), self.expr(r)], ty=_qt(n), line=line, off=off)
-            return E("bin", op=op, a=[self.expr(l), self.expr(r)], ty=_qt(n), line=line, off=off)
+            le, re_ = self.expr(l), self.expr(r)
+            if NORMALISE_COMPARE and op in ("==", "!=", "<", ">", "<=", ">="):
+                # normal form: a literal operand of a comparison stands on the right ( 5 == x  ->  x == 5 ;  0 > x  ->  x < 0 )
+                lc = le
+                while lc is not None and lc.k == "cast":
+                    lc = lc.a[0]
+                rc = re_
+                while rc is not None and rc.k == "cast":
+                    rc = rc.a[0]
+                if lc is not None and rc is not None and lc.k in ("int", "float") and rc.k not in ("int", "float"):
+                    le, re_ = re_, le
+                    op = {"==": "==", "!=": "!=", "<": ">", ">": "<", "<=": ">=", ">=": "<="}[op]
+            return E("bin", op=op, a=[le, re_], ty=_qt(n), line=line, off=off)
         if k == "CompoundAssignOperator":
             l, r = n["inner"]
             return E("asg", op=n["opcode"], a=[self.expr(l), self.expr(r)], ty=_qt(n), line=line, off=off)
